@@ -397,7 +397,7 @@ def applyLTX (s : Eng) (f : LTXFile) (fatal : Bool) : M Eng := do
     let (s, wm) ← f.pages.foldlM (fun (st : Eng × Bool) p => do
       let (s, wm) := st
       ensure s (¬ (p.2.size ≠ f.pageSize)) .err
-      let wm := if p.1 = 1 && getD p.2 18 == 2 && getD p.2 19 == 2 then true else wm
+      let wm := if p.1 = 1 then (getD p.2 18 == 2 && getD p.2 19 == 2) else wm
       let s ← writeDatabasePage s p.1 p.2
       pure (s, wm)) (s, s.walMode)
     let (s, wm) ← (if f.commit > 0 then do
@@ -434,9 +434,9 @@ def importDB (s : Eng) (data : ByteArray) : M Eng := do
   | (t, some i) =>
     let s := { s with locks := t }
     let body : M Eng := do
-      let s ← invalidateJournal s 2
-      let s ← (if s.wal.isSome then truncateWAL s 0 else pure s)
+      -- importToLTX: the whole input is read and converted before journal or WAL are touched
       let h ← (match readDBHeader data with | .error _ => fail s .err | .ok h => pure h)
+      ensure s (¬ (s.pageSize ≠ 0 ∧ h.pageSize ≠ s.pageSize)) .err
       let txid := s.posTxid + 1
       let hdr : LTXFile := { minTxid := txid, maxTxid := txid, pre := s.posChk, post := 0, commit := h.pageN, pageSize := h.pageSize, pages := [] }
       ensure s (¬ (!headerOK hdr)) .err
@@ -454,6 +454,8 @@ def importDB (s : Eng) (data : ByteArray) : M Eng := do
       ensure s (¬ (chk = 0)) .err
       let file := { hdr with post := chk, pages := pages }
       let s := { s with ltx := addLTX s.ltx file }
+      let s ← invalidateJournal s 2
+      let s ← (if s.wal.isSome then truncateWAL s 0 else pure s)
       applyLTX s file true
     match body with
     | .ok s' => pure { s' with locks := s'.locks.unlockAll i }
